@@ -296,7 +296,10 @@ func TestCheck(t *testing.T) {
 			old := date.Formatter
 			defer func() { date.Formatter = old }()
 			date.Formatter = func(buf []byte, d date.Date, f date.Format) ([]byte, error) {
-				return nil, errors.New("formatter refused")
+				if d.Day()%2 == 0 { // a formatter that fails half-way has already written something
+				return append(buf, "partial "...), errors.New("formatter refused")
+			}
+			return nil, errors.New("formatter refused")
 			}
 			r.Serial(func(w *vkit.W) { judgeFailingFormatter(c, w); w.Eval(true) })
 			return
@@ -353,6 +356,9 @@ func TestCheck(t *testing.T) {
 		old := date.Formatter
 		defer func() { date.Formatter = old }()
 		date.Formatter = func(buf []byte, d date.Date, f date.Format) ([]byte, error) {
+			if d.Day()%2 == 0 { // a formatter that fails half-way has already written something
+				return append(buf, "partial "...), errors.New("formatter refused")
+			}
 			return nil, errors.New("formatter refused")
 		}
 		r.Serial(func(w *vkit.W) {
